@@ -129,6 +129,21 @@ func drawConfFile(t *rapid.T, label string) []confSeg {
 			text(",ver:'OWASP_CRS/")
 			slot("version")
 			text("'\"\n")
+		case 5:
+			if !chance(t, 25, label+"-longline") {
+				text("# " + drawWord(t, 2, 8, label+"-w5") + "\n")
+				break
+			}
+			// one very long line (more than 64 KiB) that is full of markers: wherever a reader cuts it, a marker is there
+			text("SecAction \"id:900100,phase:1,pass,nolog,msg:'x'")
+			for k := 0; k < 3300; k++ {
+				text(",ver:'OWASP_CRS/")
+				slot("version")
+				text("'")
+			}
+			text(",setvar:tx.crs_setup_version=")
+			slot("short")
+			text("\"\n")
 		case 4:
 			// near misses that are no markers and must stay as they are
 			text(pick(t, []string{
